@@ -1161,6 +1161,18 @@ def engine_traces(ctx):
     ee.explore(ctx, ['C09', 'C01'], ['subwf'], ctx.n(24, 240), 4, suite='engine_explore_C09')
 
 
+def suite_lost_handoff(ctx):
+    """"The parent continues exactly once per sub-workflow completion", also when the hand-off message of a finished child
+    is lost (engine crash between the commit and the post-commit operation, transport loss): the periodic integrity check
+    completes the parent task from the child's result - once.  The integrity scenarios of the C20 suite (real engine
+    driver, tasks whose executions - actions and sub-workflows - finished without the completion being delivered, all
+    check delays / batch sizes / both schedulers) run here with their oracle and their model correspondence."""
+    from harness.suites import C20
+    keys = ['%s/c09-handoff/%d' % (ctx.seed, i) for i in range(ctx.n(48, 480))]
+    per_suite = C20.run_jobs(ctx, [('integrity', {'keys': c}) for c in C20.chunks(keys, core.NPROC)])
+    C20.evaluate(ctx, per_suite)
+
+
 def run(ctx):
     import time
     ctx.cov['rule'] = ('rstrip/resolve: seeded names over a small alphabet incl. dots, workbook-qualified / standalone / malformed '
@@ -1170,7 +1182,9 @@ def run(ctx):
                        'env_tree: corpus + seeded trees of depth 0-3 over caller kinds P/W/E, seeded root environments (fixed keys tok / '
                        'items / wb / tgt + random keys with scalar, list, nested values), leaf ok/err, rpc, environment by name; '
                        'distinct = distinct (suite, input)')
-    for s in (suite_subwf_rows, suite_env_tree, suite_param_split, suite_rstrip, suite_resolve, suite_result_to_parent, engine_traces):
+    # suite_lost_handoff first: its workers are forked, which is only safe while this process has not booted mistral
+    for s in (suite_lost_handoff, suite_subwf_rows, suite_env_tree, suite_param_split, suite_rstrip, suite_resolve, suite_result_to_parent,
+              engine_traces):
         t0 = time.time()
         s(ctx)
         ctx.cov['suites'].setdefault(s.__name__, {})['wall_s'] = round(time.time() - t0, 1)
@@ -1210,6 +1224,9 @@ def search(ctx):
 def replay(obj):
     r = obj.get('replay', {})
     kind = r.get('kind')
+    if r.get('suite') == 'integrity' or (isinstance(r.get('key'), str) and '/c09-handoff/' in r.get('key', '')):
+        from harness.suites import C20          # lost hand-off scenarios are run by the integrity harness of C20
+        return C20.replay(obj)
     ctx = core.Ctx('C09', 'quick', 0)
     if kind == 'subwf_rows':
         c = r['case']
